@@ -11,7 +11,11 @@ use aranya_runtime::{
 use crate::audit::{self, AAction, ACmd, ASink, AuditStore};
 
 /// memory-backed linear storage with a read-fault switch (`faulty.rs`)
+#[cfg(not(feature = "filestore"))]
 pub type SP = LinearStorageProvider<crate::faulty::FaultyManager>;
+/// feature `filestore`: the real file-backed storage (`FileManager`) and `LibcSpill`
+#[cfg(feature = "filestore")]
+pub type SP = LinearStorageProvider<aranya_runtime::storage::linear::libc::FileManager>;
 pub type Seg = <SP as StorageProvider>::Segment;
 pub type Txn = Transaction<SP, AuditStore>;
 
@@ -23,6 +27,22 @@ pub struct Replica {
     /// into the next shows up as a wrong result of a later case.
     pub buffers: RuntimeBuffers<Seg>,
     pub graph: GraphId,
+    #[cfg(feature = "filestore")]
+    pub dir: tempfile::TempDir,
+}
+
+#[cfg(not(feature = "filestore"))]
+macro_rules! spill {
+    ($s:expr) => {
+        MemSpill::new
+    };
+}
+#[cfg(feature = "filestore")]
+macro_rules! spill {
+    ($s:expr) => {{
+        let p = $s.dir.path().to_path_buf();
+        move || aranya_runtime::LibcSpill::new(&p)
+    }};
 }
 
 thread_local! {
@@ -70,6 +90,20 @@ pub struct View {
 }
 
 impl Replica {
+    #[cfg(feature = "filestore")]
+    pub fn new(graph: [u8; 32]) -> Self {
+        let base = if std::path::Path::new("/dev/shm").is_dir() { "/dev/shm" } else { "/tmp" };
+        let dir = tempfile::Builder::new().prefix("vh-graph-").tempdir_in(base).expect("tempdir");
+        let fm = aranya_runtime::storage::linear::libc::FileManager::new(dir.path()).expect("FileManager");
+        Replica {
+            client: ClientState::new(AuditStore, LinearStorageProvider::new(fm)),
+            buffers: POOL.with(|p| p.borrow_mut().pop()).unwrap_or_else(RuntimeBuffers::new),
+            graph: GraphId::transmute(CmdId::from_bytes(graph)),
+            dir,
+        }
+    }
+
+    #[cfg(not(feature = "filestore"))]
     pub fn new(graph: [u8; 32]) -> Self {
         Replica {
             client: ClientState::new(AuditStore, SP::default()),
@@ -87,7 +121,8 @@ impl Replica {
     }
 
     pub fn deliver(&mut self, t: &mut Txn, sink: &mut ASink, cmds: &[ACmd]) -> Result<usize, ClientError> {
-        self.client.add_commands(t, sink, cmds, &mut self.buffers, MemSpill::new)
+        let sp = spill!(self);
+        self.client.add_commands(t, sink, cmds, &mut self.buffers, sp)
     }
 
     pub fn flush(&mut self, t: &mut Txn) -> Result<(), ClientError> {
@@ -100,11 +135,13 @@ impl Replica {
     }
 
     pub fn commit(&mut self, t: Txn, sink: &mut ASink) -> Result<bool, ClientError> {
-        self.client.commit(t, sink, &mut self.buffers, MemSpill::new)
+        let sp = spill!(self);
+        self.client.commit(t, sink, &mut self.buffers, sp)
     }
 
     pub fn action(&mut self, sink: &mut ASink, a: &AAction) -> Result<(), ClientError> {
-        self.client.action(self.graph, sink, a, &mut self.buffers, MemSpill::new)
+        let sp = spill!(self);
+        self.client.action(self.graph, sink, a, &mut self.buffers, sp)
     }
 
     pub fn new_graph(&mut self, sink: &mut ASink, a: &AAction) -> Result<GraphId, ClientError> {
